@@ -323,13 +323,25 @@ class PosBase(np.ndarray):
         return list(_CONVERSIONS.get(cls.cls_name, {}).keys())
 
     def __setitem__(self, key, item):
-        self.clear_cache()  # Clear cache when any elements change
-        if self._dependent_objs:
-            for o in self._dependent_objs:
-                if o() is None:
-                    continue
-                o().clear_cache()  # Clear cache of dependent obj
+        self._clear_dependent_caches()  # Clear cache of this and all dependent objects when any elements change
         return super().__setitem__(key, item)
+
+    def _clear_dependent_caches(self, _seen=None):
+        """Clear the cache of this object and of every object that directly or indirectly depends on it"""
+        seen = set() if _seen is None else _seen
+        if id(self) in seen:
+            return
+        seen.add(id(self))
+        self.clear_cache()
+        for o in list(self._dependent_objs):
+            if o() is not None:
+                o()._clear_dependent_caches(seen)
+
+    def _share_memory_with(self, rows):
+        """Rows obtained by basic indexing are a view of this array: changing one changes the other"""
+        rows.add_dependency(self)
+        self.add_dependency(rows)
+        return rows
 
     def __setattr__(self, key, value):
         self.clear_cache()  # Clear cache if any attributes change
@@ -560,7 +572,8 @@ class PositionArray(PosBase):
                 orig_value = getattr(self, attr, None)
                 if orig_value is not None:
                     pos_args[attr] = orig_value[item]
-            return self.__class__(from_super, self.ellipsoid, **pos_args)
+            rows = self.__class__(from_super, self.ellipsoid, **pos_args)
+            return self._share_memory_with(rows) if isinstance(item, (int, np.int_, slice)) else rows
 
         return from_super
 
@@ -999,7 +1012,8 @@ class PositionDeltaArray(PosBase):
                 orig_value = getattr(self, attr, None)
                 if orig_value is not None:
                     pos_args[attr] = orig_value[item]
-            return self.__class__(from_super, **pos_args)
+            rows = self.__class__(from_super, **pos_args)
+            return self._share_memory_with(rows) if isinstance(item, (int, np.int_, slice)) else rows
 
         return from_super
 
